@@ -93,7 +93,9 @@ def main():
     if snapshot:
         snap = os.path.join(VERIF, ".build", "repo_seed")
         results = {}
-        sh("rm -rf %s && mkdir -p %s && git -C /repo archive HEAD | tar -x -C %s && cp /repo/Cargo.lock %s/" % (snap, snap, snap, snap), VERIF)
+        # fresh mtimes on every file: tar restores the commit time, and cargo would otherwise keep artifacts of a
+        # crate that an EARLIER seed had patched (same path, "older" source) - observed as a spurious failure
+        sh("rm -rf %s && mkdir -p %s && git -C /repo archive HEAD | tar -x -C %s && cp /repo/Cargo.lock %s/ && find %s -type f -exec touch {} +" % (snap, snap, snap, snap, snap), VERIF)
         rc, out = sh("patch -p1 < %s" % patch, snap)
         if rc != 0:
             print("patch does not apply to the snapshot:", out)
